@@ -158,8 +158,11 @@ open Window
 #guard rows_end_reachable .CurrentRow == true
 #guard frame_clip 2 1 0 10 == (2, 2)             -- empty frame: end pulled up to start
 #guard frame_clip 0 15 3 10 == (3, 10)
-example : ¬ rows_start_inRange (.Following 1) Rs.USIZE_MAX 0 10 := by
-  simp [rows_start_inRange, Rs.USIZE_MAX]
+-- since the saturating fix (2f0b366 "ROWS frame with a huge FOLLOWING offset saturates") the frame arithmetic has no
+-- range side condition left: in range for every usize offset
+example : rows_start_inRange (.Following 1) Rs.USIZE_MAX 0 10 := by
+  simp [rows_start_inRange]
+#guard rows_start (.Following 1) 18446744073709551615 0 10 == 10
 end
 
 /-! ## Compiled -/
